@@ -38,12 +38,14 @@ void rotenc_decode(rotenc_t *r, uint8_t state)
 	}
 
 	r->last_state = state;
-	if (!state)
-		r->count = r->internal_count >> 2;
+	if (!state) {
+		r->count14 = r->internal_count >> 2;
+		r->count = r->count14;
+	}
 }
 
 uint16_t rotenc_count14(rotenc_t *r)
 {
-	return ((r->internal_count >> 2) & 0x3f00) + r->count;
+	return r->count14;
 }
 
